@@ -141,7 +141,7 @@ def run(run: Run) -> int:
         "CPython's attribute protocol is modelled, not verified",
         "private tables are created with mass and density initialised (nsf.init asserts both)",
         "in-place mutation is applied to dict / list / object values; user-assigned values are opaque sentinels",
-        "mutating the class-level placeholder served for an atom *without* a neutron record is a recorded finding (D19)"])
+        "mutating the class-level placeholder served for an atom *without* a neutron record is a recorded finding (D20)"])
 
 
 def replay(data) -> int:
